@@ -8,7 +8,7 @@ RULE = ("op mn.parse <phrase> (returns printed form, length, Display) on: word c
         "(quick: each word once at a random position of a valid phrase; thorough: each word at each of 24 positions); all 2048 candidates "
         "for the final word of a random prefix for each count 12..24 (quick: counts 12 and 24 in full, 128 candidates for the others); random entropies of "
         "the five sizes via mn.random with injected entropy (parse∘print round trip); whitespace layouts; malformed stream. "
-        "a random sample of the cases is re-run through every sub-command that reaches the same code (vlib/routes.py); non-trivial = distinct phrase that reaches the checksum comparison (12..24 known words); judge = executable Spec.Bip39.Valid")
+        "a random sample of the cases is re-run through every sub-command that reaches the same code (vlib/routes.py); near-miss tokens (valid phrases with one word replaced by an upper-case / full-width / ligature / roman-numeral / superscript / mathematical-alphabet / abbreviated / invisibly-padded look-alike of the same word); non-trivial = distinct phrase that reaches the checksum comparison (12..24 known words); judge = executable Spec.Bip39.Valid")
 EXHAUSTIVE_SWEEPS = {
     "quick": ["word counts 0..40", "all 2048 words (once each)", "all 2048 final-word candidates for 12- and 24-word prefixes"],
     "thorough": ["word counts 0..40", "all 2048 words x 24 positions", "all 2048 final-word candidates for every count 12..24"]}
@@ -83,6 +83,36 @@ def gen(rng, tier):
             ws[i], ws[i - 1] = ws[i - 1], ws[i]
         sep = rng.choice([" ", " ", ",", "-", "​"]) if rng.random() < 0.1 else " "
         add(sep.join(ws), "malformed")
+    # near-miss tokens: a valid phrase in which ONE word is replaced by something a lenient lookup (case folding, Unicode
+    # normalisation, abbreviation, trimming of invisible characters) would map back to that same word — so the phrase
+    # would be valid, checksum included, if the token were "repaired".  None of these is a word of the list.
+    import unicodedata
+    LIG = [("ffi", "ﬃ"), ("ffl", "ﬄ"), ("ff", "ﬀ"), ("fi", "ﬁ"), ("fl", "ﬂ"), ("st", "ﬆ"), ("ii", "ⅱ"), ("iv", "ⅳ"), ("vi", "ⅵ"), ("ix", "ⅸ"), ("xi", "ⅺ"),
+           ("s", "ſ"), ("i", "ⅰ"), ("x", "ⅹ"), ("l", "ⅼ"), ("c", "ⅽ"), ("d", "ⅾ"), ("m", "ⅿ"), ("v", "ⅴ"), ("k", "K"), ("a", "ª"), ("o", "º"),
+           ("h", "ʰ"), ("j", "ʲ"), ("r", "ʳ"), ("w", "ʷ"), ("y", "ʸ"), ("n", "ⁿ"), ("e", "ₑ"), ("a", "ₐ"), ("g", "ℊ"), ("e", "ℯ"), ("l", "ℓ")]
+    def lookalikes(w):
+        out = [w.upper(), w.capitalize(), w[:-1] + w[-1].upper(), w[:4] if len(w) > 4 else w + w[-1], w + "\u200b", "\ufeff" + w, w + "\u00ad", w[0] + "\u0301" + w[1:],
+               w + ".", w + ",", "".join(chr(ord(c) + 0xFEE0) for c in w), chr(ord(w[0]) + 0xFEE0) + w[1:], w[:-1] + chr(ord(w[-1]) + 0xFEE0),
+               "".join(chr(0x1D41A + ord(c) - 97) for c in w), chr(0x24D0 + ord(w[0]) - 97) + w[1:], w[0] + chr(0x1D68A + ord(w[1]) - 97) + w[2:],
+               w.replace("a", "\u0430", 1) if "a" in w else w.replace("e", "\u0435", 1), w + "\u0000" if False else w + "\u2060"]
+        for a, b in LIG:
+            if a in w:
+                out.append(w.replace(a, b, 1))
+        return [t for t in out if t != w and t not in W]
+    nm = 0
+    for _ in range(40 if tier == "thorough" else 10):
+        ws = bip39.rand_phrase(rng)
+        for i in rng.sample(range(len(ws)), 4):
+            for t in lookalikes(ws[i]):
+                add(" ".join(ws[:i] + [t] + ws[i + 1:]), "near-miss-token", "nfkd-maps-back" if unicodedata.normalize("NFKD", t) == ws[i] else "other-near-miss")
+                nm += 1
+    # the whole phrase in a look-alike script / case
+    for _ in range(10):
+        ws = bip39.rand_phrase(rng)
+        ph = " ".join(ws)
+        for t in [ph.upper(), ph.title(), "".join(chr(ord(c) + 0xFEE0) if c != " " else c for c in ph), "".join(chr(ord(c) + 0xFEE0) if c != " " else "\u3000" for c in ph),
+                  "".join(chr(0x1D41A + ord(c) - 97) if c != " " else c for c in ph)]:
+            add(t, "near-miss-phrase")
     for s in ["", " ", "\n", "abandon", "abandon " * 12, ("abandon " * 11 + "about").upper()]:
         add(s, "malformed", nt=False)
     # round trip from entropy (generation with injected entropy, then parse what was printed)
